@@ -182,6 +182,25 @@ CLAIMED = {
         "transport; not observed).",
         "6 (C13)",
     ),
+    "C16": (
+        "Coq proof (store = latest packet per slot under arrivals and slot clearings, snapshot = filter over the store: fixpoint, restore-into-same and restore-twice by induction over ANY event history, for ANY routing of packets to slots) + correspondence over OBSERVED slot writes on real gateways + the statement as an oracle on fresh gateways",
+        "9 theorems in coq/props/C16.v about coq/model/M_Snapshot.v (= _MessageDB._handle_msg slot discipline, get_state()'s flatten + "
+        "wanted_msg + timestamp-keyed dict, _restore_cached_packets as replay): snapshot(replay(snapshot h)) = snapshot h for every "
+        "history h of packet arrivals and slot clearings, every routing function and every clock of the fresh gateway not ahead of the "
+        "original's; restoring into the gateway that holds the state, and restoring twice, give the same snapshot; a snapshot holds only "
+        "packets of the history that the filter wants; the filter never wants a request, wants a write only if it is a 0404 longer than 7, "
+        "and (include_expired off) wants no expired packet EXCEPT 313F -- the clause as the property states it is refuted by the code's "
+        "own rule (known finding). PARTIAL: 'the identical schema' is not a theorem (no model of schema loading) -- decided by the oracle; "
+        "routing is an arbitrary function of the packet in the theorems whereas the implementation's also depends on which entities exist. "
+        "Tie: histories fed to a real gateway packet by packet, the slots written/cleared at each step observed, the model's snapshot "
+        "over them = get_state()'s keys; 64 filter combinations observed through get_state(). Oracle: snapshot -> fresh Gateway (schema + "
+        "packets) -> snapshot, twice, and into the same gateway, both include_expired settings, ~200 (thorough ~1400) histories incl. "
+        "every recorded system verbatim and its prefixes.",
+        "Trusted: Coq kernel, harness (slot observation by diffing _msgz_/_msgs_ after every packet). Modelled not verified: expiry "
+        "verdicts are taken from the implementation (C14's subject); packet identity = timestamp + frame text, the trailing "
+        "'# header (context)' comment of repr(pkt) is canonicalised away.",
+        "6 (C16)",
+    ),
 }
 
 NOT_YET = "not claimed yet: the Coq model and correspondence harness for this property are not built in this revision (planned in DESIGN.md section 6)"
